@@ -72,6 +72,22 @@ def fronts {β : Type} (tr : List (Bool × Option β)) : List β :=
 def backs {β : Type} (tr : List (Bool × Option β)) : List β :=
   tr.filterMap fun x => if x.1 then none else x.2
 
+/-- one call on a double-ended iterator. None of the three iterators overrides `nth` / `nth_back`, so std's default
+    applies: `advance_by(k)` (that is `k` calls of `next`, results dropped) followed by one `next` -/
+inductive Act where
+  | next | nextBack | nth (k : Nat) | nthBack (k : Nat)
+
+/-- the `next` / `next_back` calls an action stands for, with a flag: is the result handed to the caller -/
+def Act.expand : Act → List (Bool × Bool)
+  | .next => [(true, true)]
+  | .nextBack => [(false, true)]
+  | .nth k => List.replicate k (true, false) ++ [(true, true)]
+  | .nthBack k => List.replicate k (false, false) ++ [(false, true)]
+
+/-- what the caller sees of a trace of primitive calls: the results of the flagged calls -/
+def visible {β : Type} (flags : List Bool) (tr : List (Bool × Option β)) : List (Bool × Option β) :=
+  (tr.zip flags).filterMap fun x => if x.2 then some x.1 else none
+
 /-! `Rows`: `Option<Chunks>`; the window of remaining rows -/
 
 /-- `Rows::next` / `Rows::next_back` on the window of remaining rows (`slice::Chunks` is a double-ended,
